@@ -1,10 +1,12 @@
 #![allow(non_snake_case, unused, non_camel_case_types)]
-// Unit pcsaft_disp_bulk  [R]  — C08.5: functional = equation of state for the DENSITY-DEPENDENT INPUTS of the PC-SAFT
-// dispersion contribution (mixture path): at every grid point at which the weighted densities are the partial densities of
-// a bulk state, the packing fraction and the two pair sums  sum_ij rho_i rho_j m_i m_j (eps_ij/T)^k sigma_ij^3  (k = 1, 2)
-// of AttractiveFunctional (src/pcsaft/dft/dispersion.rs) are those of Dispersion (src/pcsaft/eos/dispersion.rs), with the
-// same pair parameters (`epsilon_k_ij`, `sigma_ij`) and segment numbers.  Lifted piece by piece (as unit pets_bulk); the
-// mean segment number, the power series with the m-dependent coefficients and the compressibility term are NOT lifted.
+// Unit pcsaft_disp_bulk  [R]  — C08.5: functional = equation of state for the PC-SAFT dispersion contribution (mixture
+// path): at every grid point at which the weighted densities are the partial densities of a bulk state, the Helmholtz energy
+// density of AttractiveFunctional (src/pcsaft/dft/dispersion.rs) minus its polar part, times the volume, is the Helmholtz
+// energy of Dispersion (src/pcsaft/eos/dispersion.rs).  Both function bodies are lifted piece by piece (as unit pets_bulk);
+// the pieces tile the bodies: segment radii r, packing fraction, mean segment number, inverse temperature, the two pair
+// sums  sum_ij rho_i rho_j m_i m_j (eps_ij/T)^k sigma_ij^3  (k = 1, 2), and the tail (power series with the m-dependent
+// coefficients - Horner vs expanded forms -, compressibility term C1, final combination).  The universal constants
+// A0..B2 are uninterpreted tables (L21b): the identity holds for any values.
 use vstd::prelude::*;
 verus! {
 //@include contracts/r/prelude.rs
@@ -21,6 +23,22 @@ verus! {
 //@lift src/pcsaft/eos/dispersion.rs Dispersion::helmholtz_energy name=eos_pairs tail_from=rho1mix until=i1 outs=rho1mix,rho2mix tail_locals=n:int;p:L_PcSaftParameters;rho:RArr;t_inv:real ret=(real,real) named_sums
 //@end
 //@lift src/pcsaft/dft/dispersion.rs AttractiveFunctional@FunctionalContribution::helmholtz_energy_density name=dft_pairs tail_from=rho1mix until=i1 outs=rho1mix,rho2mix tail_locals=n:int;p:L_PcSaftParameters;density:RArr2;eta:RArr;temperature:real ret=(RArr,RArr) named_sums
+//@end
+//@lextern helmholtz_energy_density_polar(L_PcSaftParameters, real, RArr2) -> Result<RArr,LErr>
+//@lift src/pcsaft/eos/dispersion.rs Dispersion::helmholtz_energy name=eos_tail tail_from=i1 tail_locals=eta:real;m:real;rho1mix:real;rho2mix:real;state:L_StateHD ret=real
+//@end
+//@lift src/pcsaft/dft/dispersion.rs AttractiveFunctional@FunctionalContribution::helmholtz_energy_density name=dft_tail tail_from=i1 tail_locals=eta:RArr;m_bar:RArr;rho1mix:RArr;rho2mix:RArr;p:L_PcSaftParameters;temperature:real;density:RArr2 ret=Result<RArr,LErr> consts_from=src/pcsaft/eos/dispersion.rs
+//@end
+//@lift src/pcsaft/eos/dispersion.rs Dispersion::helmholtz_energy name=eos_m let_of=m tail_locals=state:L_StateHD;p:L_PcSaftParameters ret=real named_sums
+//@end
+//@lift src/pcsaft/dft/dispersion.rs AttractiveFunctional@FunctionalContribution::helmholtz_energy_density name=dft_m tail_from=rhog until=rho1mix outs=m_bar tail_locals=eta:RArr;density:RArr2;p:L_PcSaftParameters ret=RArr named_sums
+//@end
+//@lextern hs_diameter(L_PcSaftParameters, real) -> RArr
+//@lift src/pcsaft/eos/dispersion.rs Dispersion::helmholtz_energy name=eos_r let_of=r tail_locals=diameter:RArr ret=RArr
+//@end
+//@lift src/pcsaft/dft/dispersion.rs AttractiveFunctional@FunctionalContribution::helmholtz_energy_density name=dft_r let_of=r tail_locals=p:L_PcSaftParameters;temperature:real ret=RArr
+//@end
+//@lift src/pcsaft/eos/dispersion.rs Dispersion::helmholtz_energy name=eos_tinv let_of=t_inv tail_locals=state:L_StateHD ret=real
 //@end
 
 // ---- sums
@@ -142,5 +160,108 @@ pub proof fn contract_c08_5_pair_sums(n: int, p: L_PcSaftParameters, density: RA
     }
     lemma_rsum_ext_all();
 }
+
+// ---- series, compressibility term, combination
+proof fn lemma_coef(x: real, y: real, a2: real, a1: real, a0: real) by(nonlinear_arith)
+    ensures x * (y * a2 + a1) + a0 == ((y * x) * a2 + x * a1) + a0 {}
+proof fn lemma_horner(e: real) by(nonlinear_arith)
+    ensures e * (e * (e * (e * 2real - 12real) + 27real) - 20real)
+        == -((((e * 20real) - ((e * e) * 27real)) + ((e * e * e) * 12real)) - ((e * e * e * e) * 2real)) {}
+proof fn lemma_div_swap(m: real, pp: real, q: real) by(nonlinear_arith)
+    requires q != 0real
+    ensures ((1real - m) * pp) / q == ((-pp) / q) * (m - 1real) {}
+proof fn lemma_c1(e: real, m: real)
+    requires (e - 1real) * (e - 2real) != 0real
+    ensures
+        (((1real - m)) * (((((e * 20real) - ((e * e) * 27real)) + ((e * e * e) * 12real)) - ((e * e * e * e) * 2real)))) / (((((e - 1real)) * ((e - 2real)))) * ((((e - 1real)) * ((e - 2real)))))
+        == ((((e * (((e * (((e * (((e * 2real) - 12real))) + 27real))) - 20real)))) / (((((e - 1real)) * ((e - 2real)))) * ((((e - 1real)) * ((e - 2real)))))) * ((m - 1real)))
+{
+    let pp = (((e * 20real) - ((e * e) * 27real)) + ((e * e * e) * 12real)) - ((e * e * e * e) * 2real);
+    let d = (e - 1real) * (e - 2real);
+    let q = d * d;
+    assert(q != 0real) by(nonlinear_arith) requires d != 0real, q == d * d;
+    lemma_horner(e);
+    lemma_div_swap(m, pp, q);
+}
+/// C08.5 (power series with the m-dependent coefficients, compressibility term, final combination): for the same packing
+/// fraction, mean segment number and pair sums at grid point g, the functional's Helmholtz energy density minus its polar
+/// part, times the volume, is the Helmholtz energy of the equation of state's dispersion term
+pub proof fn contract_c08_5_series_and_combination(eta: RArr, m_bar: RArr, r1: RArr, r2: RArr, p: L_PcSaftParameters, t: real, density: RArr2, st: L_StateHD, g: int)
+    requires
+        helmholtz_energy_density_polar(p, t, density) is Ok,
+        (m_bar.at)(g) != 0real,
+        ((eta.at)(g) - 1real) * ((eta.at)(g) - 2real) != 0real,
+    ensures
+        dft_tail(eta, m_bar, r1, r2, p, t, density) is Ok,
+        ((dft_tail(eta, m_bar, r1, r2, p, t, density)->Ok_0.at)(g) - (helmholtz_energy_density_polar(p, t, density)->Ok_0.at)(g)) * st.volume
+            == eos_tail((eta.at)(g), (m_bar.at)(g), (r1.at)(g), (r2.at)(g), st),
+{
+    let (e, m) = ((eta.at)(g), (m_bar.at)(g));
+    let (x, y) = ((m - 1real) / m, (m - 2real) / m);
+    lemma_coef(x, y, (K_A2().at)(0), (K_A1().at)(0), (K_A0().at)(0)); lemma_coef(x, y, (K_B2().at)(0), (K_B1().at)(0), (K_B0().at)(0));
+    lemma_coef(x, y, (K_A2().at)(1), (K_A1().at)(1), (K_A0().at)(1)); lemma_coef(x, y, (K_B2().at)(1), (K_B1().at)(1), (K_B0().at)(1));
+    lemma_coef(x, y, (K_A2().at)(2), (K_A1().at)(2), (K_A0().at)(2)); lemma_coef(x, y, (K_B2().at)(2), (K_B1().at)(2), (K_B0().at)(2));
+    lemma_coef(x, y, (K_A2().at)(3), (K_A1().at)(3), (K_A0().at)(3)); lemma_coef(x, y, (K_B2().at)(3), (K_B1().at)(3), (K_B0().at)(3));
+    lemma_coef(x, y, (K_A2().at)(4), (K_A1().at)(4), (K_A0().at)(4)); lemma_coef(x, y, (K_B2().at)(4), (K_B1().at)(4), (K_B0().at)(4));
+    lemma_coef(x, y, (K_A2().at)(5), (K_A1().at)(5), (K_A0().at)(5)); lemma_coef(x, y, (K_B2().at)(5), (K_B1().at)(5), (K_B0().at)(5));
+    lemma_coef(x, y, (K_A2().at)(6), (K_A1().at)(6), (K_A0().at)(6)); lemma_coef(x, y, (K_B2().at)(6), (K_B1().at)(6), (K_B0().at)(6));
+    lemma_c1(e, m);
+}
+
+// ---- mean segment number
+proof fn lemma_rsum_mul(n: int, f: spec_fn(int) -> real, g: spec_fn(int) -> real, c: real)
+    requires forall|i: int| 0 <= i < n ==> #[trigger] f(i) == g(i) * c
+    ensures rsum(n, f) == rsum(n, g) * c
+    decreases n
+{
+    if n > 0 {
+        lemma_rsum_mul(n - 1, f, g, c);
+        let (a, b) = (rsum(n - 1, g), g(n - 1));
+        assert((a + b) * c == a * c + b * c) by(nonlinear_arith);
+    } else {
+        assert(0real * c == 0real) by(nonlinear_arith);
+    }
+}
+proof fn lemma_xm(x: real, m: real, rt: real) by(nonlinear_arith)
+    ensures (x * rt) * m == (x * m) * rt {}
+proof fn lemma_quot(s: real, e: real, rt: real) by(nonlinear_arith)
+    requires rt != 0real, s == e * rt
+    ensures s / rt == e {}
+pub open spec fn rho_total(rho: RArr) -> real { rsum(rho.len, |i: int| (rho.at)(i)) }
+/// C08.5 (mean segment number): where the total density exceeds the functional's cut-off (machine epsilon), its mean
+/// segment number at grid point g is the equation of state's  sum_i x_i m_i  for the mole fractions x_i = rho_i / rho
+pub proof fn contract_c08_5_mean_segment_number(eta: RArr, density: RArr2, p: L_PcSaftParameters, rho: RArr, st: L_StateHD, g: int)
+    requires
+        bulk_at(density, rho, g), rho.len >= 0, p.m.len == rho.len, st.molefracs.len == rho.len, 0 <= g < eta.len,
+        rho_total(rho) > 1real / 4503599627370496real,
+        forall|i: int| 0 <= i < rho.len ==> #[trigger] (st.molefracs.at)(i) * rho_total(rho) == (rho.at)(i),
+    ensures (dft_m(eta, density, p).at)(g) == eos_m(st, p)
+{
+    let n = rho.len;
+    let rt = rho_total(rho);
+    let z = RArr { len: eta.len, at: |i__: int| 0real };
+    let s0 = |i: int| (dft_m__summand0(density, z, p, z, i).at)(g);
+    let s1 = |i: int| (dft_m__summand1(density, z, p, z, i).at)(g);
+    let em = eos_m__sumterm0(p, st);
+    assert forall|i: int| 0 <= i < n implies #[trigger] s1(i) == (|i: int| (rho.at)(i))(i) by {}
+    lemma_rsum_ext(n, s1, |i: int| (rho.at)(i));
+    assert forall|i: int| 0 <= i < n implies #[trigger] s0(i) == em(i) * rt by {
+        lemma_xm((st.molefracs.at)(i), (p.m.at)(i), rt);
+    }
+    lemma_rsum_mul(n, s0, em, rt);
+    lemma_quot(rsum(n, s0), rsum(n, em), rt);
+    lemma_rsum_ext_all();
+}
+
+/// C08.5 (bindings between the pieces): both sides halve the same hard-sphere diameters, and the equation of state's
+/// inverse temperature is 1/T (the functional writes `temperature.recip()` in place)
+pub proof fn contract_c08_5_bindings(p: L_PcSaftParameters, t: real, st: L_StateHD)
+    requires st.temperature == t
+    ensures
+        dft_r(p, t) =~= eos_r(hs_diameter(p, t)),
+        dft_r(p, t).len == hs_diameter(p, t).len,
+        forall|i: int| (#[trigger] (dft_r(p, t).at)(i)) == (hs_diameter(p, t).at)(i) * (1real / 2real),
+        eos_tinv(st) == 1real / t,
+{}
 } // verus!
 fn main() {}
